@@ -6,6 +6,7 @@
 -/
 import NemoVerif.Lemmas.Conflict
 import NemoVerif.Lemmas.ConflictLink
+import NemoVerif.Lemmas.ConflictPhaseVM
 import NemoVerif.Models.Match
 namespace NemoVerif.C05
 open NemoVerif.Conflict List
@@ -358,6 +359,90 @@ def exCands : List NemoVerif.ErrContain.Cand := [{ fuid := 1, huid := 7, score :
 example : (∀ c ∈ exCands, NemoVerif.ErrContain.headPresent exState c = true) ∧
     (NemoVerif.ErrContain.matchPhaseRepaired exCands).matching = [{ fuid := 1, huid := 7, score := .pos 1 }] := by
   decide
+
+
+/-! ### On the whole-interpreter model `CoreVM` (phase 4)
+
+  `G` is a family of flow instances that is `Closed` (contains the child and scope flows of its members, no member borrows
+  its context dict) — the flows an event may concern.  "Untouched" for an instance `g` outside `G`: the same index entry
+  (`findInst`: flow status, heads, head positions, head statuses), the same head extras (`hx`: matching scores, catch
+  labels, scopes) and the same instance record (`fx`: context, arguments, priority, loop, action uids, scopes, parent …)
+  up to its list of child flows (`_start_flow` appends to `parent.child_flow_uids`, `_abort_flow` removes from it). -/
+
+section vm
+open NemoVerif.CoreVM NemoVerif.CoreIndex
+
+/-- what the frame theorems say about an instance `g` between two interpreter states -/
+def UntouchedVM (s s' : VM) (g : FUid) : Prop :=
+  findInst s'.ixs.ix g = findInst s.ixs.ix g ∧
+  (∀ h, OMap.lookup (g, h) s'.r.hx = OMap.lookup (g, h) s.r.hx) ∧
+  (OMap.lookup g s'.r.fx).map dropKids = (OMap.lookup g s.r.fx).map dropKids
+
+theorem untouched_of_frameM {G : FUid → Prop} {s s' : VM} (h : FrameM G s s') (g : FUid) (hg : ¬ G g) : UntouchedVM s s' g :=
+  ⟨h.ix g hg, fun hh => h.hx g hh hg, h.fx g hg⟩
+
+/-- `nonmatching_untouched` on `CoreVM.processEvent` (the body of `while state.internal_events` of `run_to_completion`):
+    whenever the processing of an internal event returns normally it decomposes into the prelude (`eventPrelude`: active
+    loops, ContextUpdate, `_process_internal_events_without_default_matchers`, candidate look-up), the candidate scan and
+    the tail (`_handle_event_matching`, failing / erroring heads, `_advance_head_front`), and there are three lists of heads
+    `res` = (matching, failing, erroring) such that
+    (i)  every head in them is a candidate whose match statement WAS evaluated against the event and did NOT answer
+         "no match" (`Fit`: score ≠ 0) — a head whose match did not fit is in none of them;
+    (ii) the scan itself changed no index entry, no instance record and only the matching scores of the MATCHING heads;
+    (iii) for every closed family `G` that contains the flows of these heads (and the source flow named by the event, which
+         `_handle_event_matching` registers in open scopes), every instance outside `G` is untouched from the state after the
+         prelude to the end of the event's processing — for every state, event and program. -/
+theorem nonmatching_untouched_vm (fuel : Nat) (event : Event) (actionable : List Key) (s s' : VM) (r : List Key)
+    (h : processEvent fuel event actionable s = .ok r s') :
+    ∃ (p : List (Option String) × Event × List String × List Key) (s0 : VM) (res : ScanAcc) (s1 : VM),
+      eventPrelude fuel event s = .ok p s0 ∧ scanCands p.2.1 p.2.2.2 p.2.2.1 s0 = .ok res s1 ∧
+      (∀ k, (k ∈ res.2.1 ∨ k ∈ res.2.2.1 ∨ k ∈ res.2.2.2) → k ∈ p.2.2.2 ∧ Fit p.2.1 k) ∧
+      (s1.ixs = s0.ixs ∧ s1.r.fx = s0.r.fx ∧ ∀ key, key ∉ res.2.1 → OMap.lookup key s1.r.hx = OMap.lookup key s0.r.hx) ∧
+      ∀ G : FUid → Prop, Closed G s0 → (∀ k, (k ∈ res.2.1 ∨ k ∈ res.2.2.1 ∨ k ∈ res.2.2.2) → G k.1) →
+        (∀ u, lookupArg "source_flow_instance_uid" p.2.1.ev.args = some (.str u) → G u) →
+        Closed G s' ∧ ∀ g, ¬ G g → UntouchedVM s0 s' g := by
+  obtain ⟨p, s0, res, s1, h0, h1, inv, hall⟩ := processEvent_frame fuel event actionable s s' r h
+  refine ⟨p, s0, res, s1, h0, h1, inv.sub, ⟨inv.ix, inv.fx, inv.hx⟩, fun G hc hM hsrc => ?_⟩
+  obtain ⟨c, f⟩ := hall G hc hM hsrc
+  exact ⟨c, fun g hg => untouched_of_frameM f g hg⟩
+
+/-- `_handle_event_matching` alone (every exit, exceptions included): only the flows of the matching heads (and, through
+    `_start_flow`, the child list of the parent) are written. -/
+theorem handle_event_matching_frame_vm (G : FUid → Prop) (event : Event) (heads : List Key) (hH : ∀ k ∈ heads, G k.1)
+    (hsrc : ∀ u, lookupArg "source_flow_instance_uid" event.ev.args = some (.str u) → G u) (s : VM) (hc : Closed G s) :
+    Closed G (outState (handleEventMatching event heads s)) ∧
+      ∀ g, ¬ G g → UntouchedVM s (outState (handleEventMatching event heads s)) g := by
+  obtain ⟨c, f⟩ := (FrM.handleEventMatching event heads hH hsrc).app s hc
+  exact ⟨c, fun g hg => untouched_of_frameM f g hg⟩
+
+/-- `only_input_heads` / `loops_independent` on the whole-interpreter model: `_resolve_action_conflicts` (grouping, order,
+    tie-break, event generation, co-winner re-pointing, catch labels, `_abort_flow` with all its descendants) writes only to
+    the flows of the actionable heads it is handed and to their child / scope flows — every other instance, in particular
+    every flow of another interaction loop that is not among the actionable heads, is untouched.  Every exit. -/
+theorem conflict_resolution_frame_vm (G : FUid → Prop) (fuel : Nat) (actionable : List Key) (hH : ∀ k ∈ actionable, G k.1)
+    (s : VM) (hc : Closed G s) :
+    Closed G (outState (resolveActionConflicts fuel actionable s)) ∧
+      ∀ g, ¬ G g → UntouchedVM s (outState (resolveActionConflicts fuel actionable s)) g := by
+  obtain ⟨c, f⟩ := (FrM.resolveActionConflicts fuel actionable hH).app s hc
+  exact ⟨c, fun g hg => untouched_of_frameM f g hg⟩
+
+/-! non-vacuity of `Closed G` with something outside `G`: two instances, `G` = {f1}; f1 has no child / scope flows and owns
+    its context — f2 is outside. -/
+def exVM : VM :=
+  { r := { prog := ⟨[]⟩,
+           fx := [("f1", { flowId := "a", loopId := some "L", hierPos := "0" }),
+                  ("f2", { flowId := "b", loopId := some "L", hierPos := "1" })] } }
+
+example : Closed (fun g => g = "f1") exVM ∧ ¬ (fun g => g = "f1") "f2" ∧ (∀ k ∈ [(("f1", "h1") : Key)], (fun g => g = "f1") k.1) := by
+  refine ⟨?_, by decide, by simp⟩
+  intro g x hg hl
+  have hg' : g = "f1" := hg
+  subst hg'
+  simp [exVM, OMap.lookup] at hl
+  subst hl
+  simp [kids, scopeFlows]
+
+end vm
 
 /-- The sort of the model is the core library's stable merge sort with the same comparator (stability of Python's
     `sorted(..., reverse=True)` is the modelled assumption). -/
